@@ -31,6 +31,17 @@ try:
                       os.path.join(d, 'patch.diff')])
         st = {'repo_head': head}
         if rc:
+            # the repository has moved on: try to merge the change in
+            sh(['git', '-C', wt, 'checkout', '--', '.'])
+            rc, out = sh(['git', '-C', wt, 'apply', '--3way',
+                          os.path.join(d, 'patch.diff')])
+            if not rc and 'with conflicts' not in out:
+                st['merged'] = True
+                sh(['git', '-C', wt, 'reset', '-q'])
+            else:
+                rc = 1
+                sh(['git', '-C', wt, 'reset', '-q', '--hard'])
+        if rc:
             st['applies'] = False
         else:
             st['applies'] = True
